@@ -31,7 +31,9 @@ class RefPrices(object):
                     if _isnan(o) or _isnan(c) or _isnan(adj):
                         op = NAN
                     else:
-                        op = (adj / c) * o
+                        # IEEE semantics for a bar a vendor wrote as zeros: 0/0 is "missing", x/0 is infinite
+                        ratio = (adj / c) if c != 0 else (NAN if adj == 0 else math.copysign(math.inf, adj))
+                        op = ratio * o
                     cl = NAN if _isnan(adj) else float(adj)
                 else:
                     op = NAN if _isnan(o) else float(o)
